@@ -72,7 +72,11 @@ func c17Bits(c *Ctx) int {
 		mm := bits.Run(p, ma)
 		fname := core.FuncName(ma)
 		seenLen := map[int]bool{}
-		for _, rs := range mm.Returns {
+		for _, rs := range splitReturns(p, ma, mm, func(rs *bits.RetState) bool {
+			_, ok := sp.out[len(outBytes(rs, 0))]
+			return !successReturn(rs) || ok
+		}) {
+			mm := rs.Machine
 			if !successReturn(rs) {
 				// an error return must not hand out bytes
 				if ob := outBytes(rs, 0); len(ob) > 0 {
@@ -169,6 +173,31 @@ func c17Bits(c *Ctx) int {
 		}
 	}
 	return n
+}
+
+// splitReturns: the return states of fn; when some state is not good (an output whose size depends on
+// a branch) and the function branches on an input bit, the states of the two runs that fix that bit
+// (which together cover every execution) are used instead, provided all of them are good.
+func splitReturns(p *core.Program, fn *ssa.Function, mm *bits.Machine, good func(*bits.RetState) bool) []*bits.RetState {
+	all := func(rs []*bits.RetState) bool {
+		for _, r := range rs {
+			if !good(r) {
+				return false
+			}
+		}
+		return len(rs) > 0
+	}
+	if all(mm.Returns) {
+		return mm.Returns
+	}
+	for _, bit := range mm.BranchBits() {
+		t := bits.RunForced(p, fn, nil, map[bits.Bit]bool{bit: true})
+		f := bits.RunForced(p, fn, nil, map[bits.Bit]bool{bit: false})
+		if all(t.Returns) && all(f.Returns) {
+			return append(append([]*bits.RetState(nil), t.Returns...), f.Returns...)
+		}
+	}
+	return mm.Returns
 }
 
 func keysOf(m map[int][]string) []int {
